@@ -1,6 +1,6 @@
 (* C16  A trained model is a function of the labelled sample multiset and the seed only. *)
 From Coq Require Import Reals List Permutation.
-From BLE Require Import Num.InstR Model.GMM Model.KMeans Model.Linear Proofs.RLemmas Proofs.GMMLik Proofs.GMMStats Proofs.KMeansR Proofs.LinearR Model.FA Proofs.FAEnroll Proofs.FAAcc Proofs.Perm Generated.Facts Proofs.FactsDefs Proofs.Rng.
+From BLE Require Import Num.InstR Model.GMM Model.KMeans Model.Linear Proofs.RLemmas Proofs.GMMLik Proofs.GMMStats Proofs.KMeansR Proofs.LinearR Model.FA Proofs.FAEnroll Proofs.FAAcc Proofs.FAOrder Proofs.Perm Generated.Facts Proofs.FactsDefs Proofs.Rng.
 Import ListNotations.
 Open Scope R_scope.
 
@@ -61,6 +61,19 @@ Proof.
   - exact (jfa_iter_v_class_order inv C D rU rV u F Hu HF H1 H2 cl cl' P Hc).
 Qed.
 Print Assumptions C16_isv_and_jfa_iterations_invariant_under_class_permutation.
+
+(* ... and whole training runs: any number of EM iterations; for JFA all three phases, the latent factors handed from one phase
+   to the next (no hypothesis on the external inverse is needed: it is applied to the same matrices) *)
+Theorem C16_isv_and_jfa_training_runs_invariant_under_class_permutation inv (iters C D rU rV : nat) (u : FR.ubm) (F : FR.fa) (cl cl' : list (list FR.gstat)) :
+  ubm_ok C D u -> Permutation cl cl' -> classes_ok C D cl ->
+  FR.isv_fit inv iters rU D u cl F = FR.isv_fit inv iters rU D u cl' F
+  /\ FR.jfa_fit inv iters rU rV D u cl F = FR.jfa_fit inv iters rU rV D u cl' F.
+Proof.
+  intros Hu P Hc. split.
+  - exact (isv_fit_class_order inv iters C D rU rV u F cl cl' Hu P Hc).
+  - exact (jfa_fit_class_order inv iters C D rU rV u F cl cl' Hu P Hc).
+Qed.
+Print Assumptions C16_isv_and_jfa_training_runs_invariant_under_class_permutation.
 
 Theorem C16_generated_seeding_facts : extraction_error = false /\ seeding_ok = true.
 Proof. exact generated_seeding_obligation. Qed.
